@@ -162,7 +162,7 @@ fn check_tokens(ctx: &mut Ctx, roots: &[String], tokens: &[String], via_binary: 
         Err(e) => inconclusive(&format!("C01 generator produced a token vector the reference parser rejects: {tokens:?}: {e:?}")),
     };
     let go = expr::global_opts(&parsed);
-    let wo = WalkOpts { follow: FollowMode::P, depth_first: go.depth_first, min_depth: go.min_depth, max_depth: go.max_depth.unwrap_or(usize::MAX) };
+    let wo = WalkOpts { follow: FollowMode::P, depth_first: go.depth_first, min_depth: go.min_depth, max_depth: go.max_depth.unwrap_or(usize::MAX), as_other: false };
     let mut ev = Evaluator::new(&parsed, go.depth_first);
     let mut events = vec![];
     let mut visited = 0u64;
@@ -382,7 +382,7 @@ fn run(w: &mut Worker) {
     w.regress::<TokCase>("tokens", check_tok);
     let max_len = w.tier.pick(6, 7);
     w.exhaustive("tokens", &format!("all accepted token sequences of length 1..={max_len} over an 11-token alphabet"), TokenSeqs { len: 1, max_len, idx: vec![0], done: false }, check_tok);
-    w.random("expr", w.tier.pick(8_000, 120_000), (40, 400), 2000, gen_case, check);
+    w.random("expr", w.tier.pick(40_000, 600_000), (40, 400), 2000, gen_case, check);
 }
 
 fn replay(w: &mut Worker, sub: &str, v: Value) -> Outcome {
